@@ -66,6 +66,18 @@ def finding_probe3(pid):
                      "fin": {"k": "probe", "tag": "p%ds2" % pid, "e": v}}, "mtype": fogen.INT}
 
 
+def finding_probe4(pid):
+    """the designated probe of the known finding string-match-var-in-literal-rules: the rule variable of a string match has the name of an
+    outer variable that a LITERAL rule uses"""
+    v = {"k": "var", "x": "v"}
+    bang = lambda e, c: {"k": "bin", "op": "+", "a": e, "b": {"k": "str", "v": c}}
+    return {"id": pid, "profile": "fc", "types": [], "funcs": [],
+            "main": {"stmts": [{"k": "let", "x": "v", "e": {"k": "str", "v": "outer"}}, {"k": "let", "x": "s", "e": {"k": "str", "v": "a"}}],
+                     "fin": {"k": "smatch", "target": {"k": "var", "x": "s"},
+                             "arms": [{"lit": "a", "body": {"stmts": [], "fin": {"k": "probe", "tag": "p%dlit" % pid, "e": bang(v, "!")}}}],
+                             "last": {"k": "var", "x": "v", "body": {"stmts": [], "fin": bang(v, "?")}}}}, "mtype": fogen.STR}
+
+
 def run(ctx):
     ctx.rule = ("well-typed programs of the documented profile from the seeded type-directed generator (records with upper / lower case "
                 "fields, unions with payloads of scalars / tuples / records / slices / other unions, functions, inner functions with "
@@ -88,6 +100,8 @@ def run(ctx):
     progs.append(finding_probe2(fid2))
     fid3 = fid2 + 1
     progs.append(finding_probe3(fid3))
+    fid4 = fid3 + 1
+    progs.append(finding_probe4(fid4))
     texts, observed, bad = run_programs(ctx, progs)
     for i, p in enumerate(progs):
         o = observed[p["id"]]
@@ -115,6 +129,13 @@ def run(ctx):
             bad.remove((idx, pos, exp))
             if ctx.is_known("same-block-shadowing"):
                 ctx.known_finding("same-block-shadowing", "let x = 1 / let x = x + 1 in one block (also a let with the name of a parameter in the function's own block): emitted as two `x := ...` in one Go block, the Go does not compile")
+            else:
+                bad.append((idx, pos, exp))
+    for idx, pos, exp in list(bad):
+        if progs[idx]["id"] == fid4:
+            bad.remove((idx, pos, exp))
+            if ctx.is_known("string-match-var-in-literal-rules"):
+                ctx.known_finding("string-match-var-in-literal-rules", "let v = \"outer\" / match s with | \"a\" -> v + \"!\" | v -> v + \"?\" with s = \"a\": the literal rule sees the rule variable v (the matched string) instead of the outer v: a! instead of outer!")
             else:
                 bad.append((idx, pos, exp))
     if "dangling-else-inner-if-only" not in ctx.known and not any(progs[idx]["id"] == fid2 for idx, _, _ in bad):
